@@ -7,6 +7,7 @@ import (
 	"fmt"
 	"os"
 	"runtime"
+	"sort"
 	"strconv"
 	"strings"
 	"time"
@@ -131,6 +132,10 @@ func BuildMulti(g string, s []ro.Observable[any]) (ro.Observable[any], error) {
 		return ro.SampleWhen[any](s[1])(s[0]), nil
 	case "ThrottleWhen":
 		return ro.ThrottleWhen[any](s[1])(s[0]), nil
+	case "GroupBy":
+		return tupleAny(ro.GroupBy(func(v any) int { return v.(int) % 2 })(s[0])), nil
+	case "GroupByI":
+		return tupleAny(ro.GroupByI(func(v any, _ int64) int { return v.(int) % 2 })(s[0])), nil
 	case "WindowWhen":
 		return tupleAny(ro.WindowWhen[any](s[1])(s[0])), nil
 	}
@@ -323,6 +328,7 @@ func replayMulti(idx int, c *MCase, mode string, out *[]Mismatch) {
 				r.terminated = true
 			}
 		}
+		sortInnerTerminals(delta)
 		compareLog(i, st.Exp.Log, delta, r.me, add)
 		if r.sub != nil {
 			if cl := r.sub.IsClosed(); cl != st.Exp.Closed {
@@ -360,6 +366,24 @@ func replayMulti(idx int, c *MCase, mode string, out *[]Mismatch) {
 			defer func() { _ = recover() }() // a panicking teardown re-raises here
 			r.sub.Unsubscribe()
 		}()
+	}
+}
+
+// sortInnerTerminals puts every run of consecutive inner terminals (IC / IE of several groups: the code notifies them in map order)
+// into ascending group order, the order the model prints.
+func sortInnerTerminals(d []got) {
+	for i := 0; i < len(d); {
+		j := i
+		for j < len(d) && (d[j].K == "IC" || d[j].K == "IE") {
+			j++
+		}
+		if j-i > 1 {
+			sort.SliceStable(d[i:j], func(a, b int) bool { return d[i+a].V < d[i+b].V })
+		}
+		if j == i {
+			j++
+		}
+		i = j
 	}
 }
 
